@@ -444,7 +444,7 @@ func (x *Exec) scanWrites(instrs []ssa.Instruction, li *loopInfo, seen map[*ssa.
 				continue
 			}
 			if fc := x.contractFor(callee); fc != nil && !fc.Inline {
-				if !fc.HasMod {
+				if !fc.HasMod && !fc.HasTrustedMod {
 					continue
 				}
 				x.modKeys(fc, li)
@@ -470,7 +470,11 @@ func (x *Exec) scanWrites(instrs []ssa.Instruction, li *loopInfo, seen map[*ssa.
 }
 
 func (x *Exec) modKeys(fc *FuncContract, li *loopInfo) {
-	for _, m := range fc.Modifies {
+	ms := fc.Modifies
+	if fc.HasTrustedMod {
+		ms = fc.TrustedMod
+	}
+	for _, m := range ms {
 		li.keys["mod:"+fc.Key+":"+m] = true
 	}
 }
@@ -566,10 +570,20 @@ func (x *Exec) emit(st *State, name, kind string, goal *T, vals []*T) {
 		x.trivial[name]++
 		return
 	}
-	if containsForall(goal) && len(st.instTerms) > 0 {
-		goal = instRewrite(goal, st.instTerms)
+	// universally quantified goals are proved for fresh constants, at which the quantified
+	// facts are then instantiated by hand
+	terms := st.instTerms
+	if containsForall(goal) {
+		var sk []*T
+		goal, sk = skolemizeGoal(goal)
+		if len(sk) > 0 {
+			terms = append(append([]*T(nil), st.instTerms...), sk...)
+		}
 	}
-	q := &Query{Name: name, Facts: instantiateFacts(st.facts, st.instTerms), Goal: goal, Vals: vals, Axioms: x.autoAxioms}
+	if containsForall(goal) && len(terms) > 0 {
+		goal = instRewrite(goal, terms)
+	}
+	q := &Query{Name: name, Facts: instantiateFacts(st.facts, terms), Goal: goal, Vals: vals, Axioms: x.autoAxioms}
 	x.obligs = append(x.obligs, &Oblig{Name: name, Func: x.topKey, Kind: kind, Query: q})
 	if kind != "frame" {
 		st.assume(goal)
@@ -1387,6 +1401,14 @@ func (x *Exec) envFor(st *State, fr *Frame) *Env {
 	for k, v := range fr.binds {
 		vars[k] = v
 		tys[k] = fr.bindTypes[k]
+		if tv, ok := v.(TupleV); ok {
+			if tt, ok := fr.bindTypes[k].(*types.Tuple); ok {
+				for i := range tv {
+					vars[fmt.Sprintf("%s%d", k, i)] = tv[i]
+					tys[fmt.Sprintf("%s%d", k, i)] = tt.At(i).Type()
+				}
+			}
+		}
 	}
 	if fr.fn == x.top && x.preEnv != nil {
 		if tv, ok := x.preEnv.vars["this"]; ok {
@@ -1579,4 +1601,38 @@ func allocOrder(al *ssa.Alloc) int {
 		}
 	}
 	return b.Index * 100000
+}
+
+// skolemizeGoal replaces universal quantifiers in positive position of a goal by fresh
+// constants (proving P(c) for an arbitrary c proves forall x. P(x)).
+func skolemizeGoal(g *T) (*T, []*T) {
+	if g.Op != "app" {
+		return g, nil
+	}
+	switch g.Name {
+	case "forall":
+		n := len(g.Args) - 1
+		m := map[string]*T{}
+		var sk []*T
+		for _, v := range g.Args[:n] {
+			c := Fresh("sk!"+strings.TrimPrefix(v.Name, "b!"), v.Sort)
+			m[v.Name] = c
+			sk = append(sk, c)
+		}
+		body, more := skolemizeGoal(Subst(g.Args[n], m))
+		return body, append(sk, more...)
+	case "and":
+		var sk []*T
+		args := make([]*T, len(g.Args))
+		for i, a := range g.Args {
+			var s2 []*T
+			args[i], s2 = skolemizeGoal(a)
+			sk = append(sk, s2...)
+		}
+		return And(args...), sk
+	case "=>":
+		b, sk := skolemizeGoal(g.Args[1])
+		return Implies(g.Args[0], b), sk
+	}
+	return g, nil
 }
